@@ -31,6 +31,16 @@ prop("C15",
      ["value equality of the two encodings (follows from the threading plus NumPy/struct semantics, which are trusted)"],
      COMMON_ASSUMPTIONS)
 
+prop("C05",
+     ["CT1", "OW4", "CE1"],
+     "Typestate analysis of the shared stream position across generators (continuation-passing abstract interpretation over the "
+     "three data-reader classes, entry points TdmsFile.data_chunks, TdmsChannel.data_chunks/iteration, read_data, slices, integer "
+     "indexing): every position-dependent operation (read/readinto/tell/relative seek) is preceded by an absolute seek since the "
+     "last suspension. Plus single-writer discipline of the memo fields and offset index, pairing and two-sided test of the "
+     "one-chunk cache, and element-complete comparison before offset arrays are shared.",
+     ["that memoised values are correct", "thread interleavings (excluded by the property)"],
+     COMMON_ASSUMPTIONS)
+
 # ---------------------------------------------------------------------------
 # MANIFEST texts
 LEVEL_TEXT = {
@@ -42,7 +52,11 @@ LEVEL_TEXT = {
 LEVEL_TEXT["C15"] = ("Claim (structural): byte order is threaded by hand through every parser; the checker enumerates all parse sites "
                      "(formats, defaulted endianness arguments, dtypes, derivations) and decides each by interprocedural dataflow of the "
                      "endianness value. A missed site affects one field of one record kind and is invisible to a suite with one big-endian file.")
+LEVEL_TEXT["C05"] = ("Claim (structural): independence of reads is a typestate property of generator code (position unknown after each "
+                     "yield of the entry generator), decided for every path through the reader chain and all three data-reader classes; a test "
+                     "must guess an interleaving, the analysis quantifies over all of them.")
 TECHNIQUE = {
+    "C05": "static analysis: typestate (cursor P/U) abstract interpretation with generator continuations, single-writer and cache-pairing rules",
     "C15": "static analysis: interprocedural endianness dataflow over the call graph, default-argument trap, layout sibling comparison",
     "C20": "static analysis: CFG with exceptional edges, must-pass-through / dominance queries, ownership (who-may-open/close) rules",
 }
